@@ -11,3 +11,9 @@ LEVEL_TEXT = 'Deductive proof of the by-name plumbing functions; IdManager.prepa
 LEVEL_NOTE = 'Trusted: pyvc, z3/cvc5, LIBSPEC (sorted, dict order), ENGINE-SPEC for the reading of Beta lines.'
 TECHNIQUE = 'contract-based deductive verification (AST -> VCs -> z3/cvc5) + bounded renaming differential'
 DESIGN_REF = 'DESIGN.md section 3 / C03'
+
+
+def extra(tier, seed):
+    from pyvc.bounded import run_native
+    return [run_native('C03:bounded:renaming', 'c03_renaming.py', [tier, str(seed)],
+                       bound='see the harness bound string: 6 (20) logit specifications x 5-7 namings with shuffled terms, partial dictionaries, duplicate kinds', timeout=1500)]
